@@ -46,6 +46,7 @@ func init() {
 	register("C07", &PropDef{
 		Setup: func(c *Ctx) {
 			mon.EnableAllocProfile()
+			mon.DebugAlloc = os.Getenv("VERIF_DEBUG_ALLOC") != ""
 			gen.LoadTexts(c.Repo)
 			c07Seeds = buildSeeds(c, false)
 			c07Alloc = mon.NewAllocWatch()
